@@ -25,11 +25,31 @@ BC = "fparser.common.base_classes"
 UT = "fparser.common.utils"
 
 
+class _LineModel:
+    """marker types for `isinstance(item, Line)` / `isinstance(item, Comment)` in interpreted code"""
+
+
+class _CommentModel:
+    pass
+
+
+class ItemObj(PE.Obj, _LineModel):
+    pass
+
+
 class World:
     def __init__(self, m):
         self.m = m
+        self.messages = []
+        self.blocks = False            # True: BeginStatement.fill is interpreted too (whole blocks are read from a model queue)
         self.ev = PE.Evaluator({}, max_steps=400000)
         g = self.ev.g
+        noop = lambda *a, **k: None
+        logger = PE.Obj({"warning": noop, "error": noop, "info": noop, "debug": noop, "critical": noop})
+        g["logging"] = PE.Obj({"getLogger": lambda *a, **k: logger})
+        g["__name__"] = "fparser.one"
+        g["Line"] = _LineModel
+        g["Comment"] = _CommentModel
         for mod in ONE_MODULES + (UT, BC):
             for name, val in PE.module_regexes(m, mod).items():
                 g.setdefault(name, val)
@@ -38,13 +58,33 @@ class World:
             for (p_, q), f in m.funcs.items():
                 if p_ == path and "." not in q and q not in g:
                     g[q] = (lambda fn: (lambda *a, **k: self.ev.run_function(fn.node, list(a), k)))(f)
+        # one namespace in import order: base classes, statements, type declarations, then the block statements, whose classes
+        # (Where, Forall, Type) replace the like-named statement classes (those stay reachable as WhereStmt, ForallStmt, TypeStmt)
         self.classes = {}
-        for k, c in m.classes.items():
-            if c["module"] in ONE_MODULES + (BC,):
-                self.classes.setdefault(c["name"], k)
-        for name, k in self.classes.items():
-            if name not in g:
-                g[name] = ClassRef(self, k)
+        for mod in (BC,) + ONE_MODULES:
+            for k, c in sorted(m.classes.items(), key=lambda kc: kc[1]["lineno"] or 0):
+                if c["module"] == mod:
+                    self.classes[c["name"]] = k
+                    g[c["name"]] = ClassRef(self, k)
+            if mod in ONE_MODULES:
+                for node in m.files[m.modfile[mod]][1].body:
+                    if isinstance(node, ast.Assign) and len(node.targets) == 1 and isinstance(node.targets[0], ast.Name) \
+                            and isinstance(node.value, ast.Name) and node.value.id in g and isinstance(g[node.value.id], ClassRef):
+                        g[node.targets[0].id] = g[node.value.id]
+        # names that mean different classes in different modules (Where, Forall, Type): per module, the binding that module sees
+        self.per_module = {}
+        order = (BC,) + ONE_MODULES
+        seen = {}
+        for i_, mod in enumerate(order):
+            for k, c in m.classes.items():
+                if c["module"] == mod:
+                    seen.setdefault(c["name"], {})[mod] = k
+        for name, by_mod in seen.items():
+            if len(by_mod) > 1:
+                for i_, mod in enumerate(order):
+                    visible = [by_mod[x] for x in order[:i_ + 1] if x in by_mod]
+                    if visible:
+                        self.per_module.setdefault(mod, {})[name] = ClassRef(self, visible[-1])
         g["re"] = PE.Obj({"match": re.match, "search": re.search, "compile": re.compile, "sub": re.sub, "split": re.split, "findall": re.findall,
                           "I": re.I, "IGNORECASE": re.I, "escape": re.escape})
         g["map"] = lambda fn_, *xs: [fn_(*t) for t in zip(*xs)]
@@ -69,6 +109,22 @@ class World:
         g["str"] = str
         g["ParseError"] = lambda *a, **k: PE.PyRaise("ParseError", " ".join(map(str, a)))
         g["AnalyzeError"] = lambda *a, **k: PE.PyRaise("AnalyzeError", " ".join(map(str, a)))
+
+    def run_in(self, modname, funcdef, args, kw=None):
+        """interpret a function with the global names of ITS module (the few names that differ between the fparser.one modules)"""
+        over = self.per_module.get(modname)
+        if not over:
+            return self.ev.run_function(funcdef, args, kw)
+        saved = {n: self.ev.g.get(n) for n in over}
+        self.ev.g.update(over)
+        try:
+            return self.ev.run_function(funcdef, args, kw)
+        finally:
+            for n, v in saved.items():
+                if v is None:
+                    self.ev.g.pop(n, None)
+                else:
+                    self.ev.g[n] = v
 
     def _isinstance(self, obj, cls):
         cs = cls if isinstance(cls, tuple) else (cls,)
@@ -109,29 +165,33 @@ class World:
             cd = m.classdef(kk) if kk in m.classes else None
             if cd is None:
                 continue
-            if kk == BC + ":BeginStatement" and name in ("process_item", "fill"):
+            if kk == BC + ":BeginStatement" and name in ("process_item", "fill") and not self.blocks:
                 # reading the body of the block from the source is not part of the model: the opening statement alone is decided
                 return lambda *a, **k: None
+            mod_ = m.classes[kk]["module"]
             for b in cd.body:
                 if isinstance(b, (ast.FunctionDef,)) and b.name == name:
                     deco = [A.text(d) for d in b.decorator_list]
                     if "staticmethod" in deco:
-                        return lambda *a, **k: self.ev.run_function(b, list(a), k)
+                        return lambda *a, **k: self.run_in(mod_, b, list(a), k)
                     if "classmethod" in deco:
-                        return lambda *a, **k: self.ev.run_function(b, [ClassRef(self, key)] + list(a), k)
+                        return lambda *a, **k: self.run_in(mod_, b, [ClassRef(self, key)] + list(a), k)
                     if "property" in deco:
                         if bind is None:
                             raise PE.Unsupported("property %s on a class" % name)
-                        return self.ev.run_function(b, [bind])
+                        return self.run_in(mod_, b, [bind])
                     if bind is not None:
-                        return lambda *a, **k: self.ev.run_function(b, [bind] + list(a), k)
-                    return lambda *a, **k: self.ev.run_function(b, list(a), k)
+                        return lambda *a, **k: self.run_in(mod_, b, [bind] + list(a), k)
+                    return lambda *a, **k: self.run_in(mod_, b, list(a), k)
                 if isinstance(b, ast.Assign) and len(b.targets) == 1 and isinstance(b.targets[0], ast.Name) and b.targets[0].id == name:
                     ent = m.classes[kk]["own"].get(name, {})
                     pats = ent.get("patterns")
                     if pats and pats[0].get("kind") in ("re_method", "re"):
                         rx = re.compile(pats[0]["pattern"], pats[0].get("flags", 0))
                         return getattr(rx, pats[0]["method"]) if pats[0].get("kind") == "re_method" else rx
+                    if isinstance(b.value, ast.Call) and A.text(b.value.func) == "staticmethod" and b.value.args \
+                            and isinstance(b.value.args[0], ast.Lambda):
+                        return self.ev._closure(b.value.args[0], {})        # match = staticmethod(lambda s: True)
                     try:
                         return ast.literal_eval(b.value)
                     except Exception:
@@ -203,13 +263,15 @@ def make_parent(world, construct_name=None):
 
 
 def make_item(world, line, label=None, name=None):
-    item = one_taint._item_model(PE, line)
+    base_item = one_taint._item_model(PE, line)
+    item = ItemObj(base_item.fields)
     item.fields["label"] = label
     item.fields["name"] = name
     item.fields["span"] = (1, 1)
     item.fields["has_map"] = lambda: "F2PY_" in item.fields["get_line"]()
     item.fields["is_f2py_directive"] = False
-    item.fields["reader"] = PE.Obj({"format": PE.Obj(dict(FORMAT))})
+    item.fields["reader"] = PE.Obj({"format": PE.Obj(dict(FORMAT)), "format_message": lambda kind, msg, *a, **k: (world.messages.append("%s: %s" % (kind, msg)) or "%s: %s" % (kind, msg)),
+                                    "set_mode": lambda *a, **k: None, "warnings": []})
 
     def clone(text):
         new = one_taint._item_model(PE, item.fields["apply_map"](text))
@@ -230,13 +292,26 @@ def make_item(world, line, label=None, name=None):
 def new_inst(world, key, item, parent):
     m = world.m
     fields = {"item": item, "parent": parent, "top": None, "isvalid": True, "ignore": False, "a": PE.Obj({}),
-              "get_indent_tab": lambda *a, **k: "", "reader": item.fields["reader"] if item is not None else parent.get(world.ev, "reader")}
+              "reader": item.fields["reader"] if item is not None else parent.get(world.ev, "reader")}
+    if not world.blocks:
+        fields["get_indent_tab"] = lambda *a, **k: ""          # single statements: indentation and label are not part of the comparison
     st = Inst(world, key, fields)
     fields = st.fields
+    fields.setdefault("warning", lambda *a, **k: None)
+    fields.setdefault("error", lambda *a, **k: None)
+    fields.setdefault("info", lambda *a, **k: None)
+    if m.issub(key, m.key("EndStatement", BC)):
+        try:
+            world.class_attr(key, "blocktype")
+        except PE.Unsupported:
+            fields["blocktype"] = key.split(":")[1].lower()[3:]
     if m.issub(key, m.key("BeginStatement", BC)):
         fields["content"] = []
-        fields["get_item"] = lambda: None
-        fields["put_item"] = lambda it: None
+        fields["get_item"] = parent.get(world.ev, "get_item") if world.blocks else (lambda: None)
+        fields["put_item"] = parent.get(world.ev, "put_item") if world.blocks else (lambda it: None)
+        fields["warning"] = lambda *a, **k: None
+        fields["error"] = lambda *a, **k: None
+        fields["info"] = lambda *a, **k: None
         try:
             world.class_attr(key, "blocktype")
         except PE.Unsupported:
@@ -246,6 +321,7 @@ def new_inst(world, key, item, parent):
         except PE.Unsupported:
             fields["name"] = "__" + str(st.get(world.ev, "blocktype")).upper() + "__"
         fields["construct_name"] = item.fields.get("name") if item is not None else None
+        fields.setdefault("top", None)
     return st
 
 
@@ -570,4 +646,114 @@ def roundtrip_rule(m, rid, floor=90):
             r.fail("%s|fixpoint" % ident, "fparser1 %s: %r is printed as %r, which the same class then %s: the regenerated source does not "
                    "regenerate to the same statement" % (cname, line, out1, "rejects" if out2 is None else "prints as %r" % (out2,)),
                    m.class_loc(key))
+    return r
+
+
+# ---------------------------------------------------------------------------------------------------------------
+# fparser1 block structure: BeginStatement.fill / process_subitem interpreted over small programs read from a model queue
+def _split_label(line):
+    label = name = None
+    line = line.strip()
+    mo = re.match(r"\s*(\d+)\s+(.*)", line)
+    if mo:
+        label, line = int(mo.group(1)), mo.group(2)
+    mo = re.match(r"(\w+)\s*:\s*(?!:)(.*)", line)
+    if mo and not re.match(r"\w+\s*::", line):
+        name, line = mo.group(1), mo.group(2)
+    return line.strip(), label, name
+
+
+BLOCK_SAMPLES = [
+    ("Subroutine", ["subroutine s(a, n)", "integer n", "do 20 i = 1, n", "do 10 j = 1, n", "a(i, j) = 0", "10 continue", "20 continue",
+                    "if (n > 0) then", "x = 1", "else if (n < 0) then", "x = 3", "else", "x = 2", "end if", "end subroutine s"]),
+    ("Subroutine", ["subroutine t(a, n)", "do 10 i = 1, n", "do 10 j = 1, n", "a(i, j) = 0", "10 continue", "x = 1", "end subroutine t"]),
+    ("Subroutine", ["subroutine u(a, n)", "do i = 1, n", "do 10 j = 1, n", "a(i, j) = 0", "10 continue", "end do", "end subroutine u"]),
+    ("Subroutine", ["subroutine v(a, n)", "do 30 i = 1, n", "do 20 j = 1, n", "do 20 k = 1, n", "a(i, j) = k", "20 continue", "30 a(i, 1) = 0", "end subroutine v"]),
+    ("Subroutine", ["subroutine w(k)", "select case (k)", "case (1)", "x = 1", "case default", "x = 2", "end select", "where (m > 0)", "b = 1",
+                    "elsewhere", "b = 2", "end where", "forall (i = 1:n)", "c(i) = i", "end forall", "if (k > 0) x = 3", "end subroutine w"]),
+    ("Module", ["module m", "implicit none", "type t", "integer :: i", "end type t", "interface g", "module procedure g1", "end interface g",
+                "contains", "subroutine g1(x)", "real x", "end subroutine g1", "function f(y) result(r)", "r = y", "end function f", "end module m"]),
+    ("Program", ["program p", "outer: do i = 1, 3", "if (i == 2) cycle outer", "inner: do", "exit inner", "end do inner", "end do outer",
+                 "associate (z => i)", "z = 1", "end associate", "end program p"]),
+    ("Function", ["function f(x)", "real f, x", "f = x", "return", "end function f"]),
+]
+
+
+def _run_block(world, m, cname, lines):
+    """read the lines as fparser1's top level does: a BeginSource block over a queue of item models"""
+    key = m.key("BeginSource", "fparser.one.block_statements")
+    queue = []
+    for l in lines:
+        text, label, name = _split_label(l)
+        queue.append(make_item(world, text, label, name))
+    parent = make_parent(world)
+    parent.fields["get_item"] = lambda: (queue.pop(0) if queue else None)
+    parent.fields["put_item"] = lambda it: queue.insert(0, it)
+    parent.fields["reader"] = PE.Obj({"format": PE.Obj(dict(FORMAT)), "name": "<model>", "format_message": lambda kind, msg, *a, **k: "%s: %s" % (kind, msg),
+                                      "set_mode": lambda *a, **k: None})
+    st = new_inst(world, key, None, parent)
+    world.ev.steps = 0
+    st.get(world.ev, "process_item")()
+    return st, queue
+
+
+def _program_text(world, st):
+    return "\n".join(str(c.get(world.ev, "tofortran")(isfix=False)) for c in st.fields.get("content", []) if isinstance(c, Inst))
+
+
+def _structure(world, st, depth=0):
+    out = []
+    for c in st.fields.get("content", []):
+        if isinstance(c, Inst):
+            out.append((depth, c.cls.key.split(":")[1]))
+            if "content" in c.fields:
+                out += _structure(world, c, depth + 1)
+        else:
+            out.append((depth, "<unparsed line>"))
+    return out
+
+
+def block_structure_rule(m, rid):
+    r = RuleResult(rid, "fparser1 block structure by interpretation: BeginStatement.fill / process_subitem and the statement classes are "
+                        "interpreted over %d small programs read from a model queue; every line is consumed by the block it belongs to, the "
+                        "regenerated program is accepted again, nests the same statements in the same blocks and regenerates to itself"
+                        % len(BLOCK_SAMPLES))
+    r.floor = len(BLOCK_SAMPLES) - 1
+    world = World(m)
+    world.blocks = True
+    world.ev.max_steps = 30000000
+    for cname, lines in BLOCK_SAMPLES:
+        r.instances += 1
+        ident = "%s|%s" % (cname, lines[0])
+        try:
+            st1, left1 = _run_block(world, m, cname, lines)
+            text1 = _program_text(world, st1)
+            s1 = _structure(world, st1)
+            lines2 = [l_ for l_ in text1.split("\n") if l_.strip()]
+            st2, left2 = _run_block(world, m, cname, lines2)
+            text2 = _program_text(world, st2)
+            s2 = _structure(world, st2)
+        except PE.Unsupported as err:
+            r.undet("%s: %s" % (ident, err))
+            continue
+        except PE.PyRaise as err:
+            r.ob(False)
+            r.fail("%s|block|raises" % ident, "fparser1: reading the program that starts `%s` (or its regenerated form) raises %s%s"
+                   % (lines[0], err.exc_type, ": " + world.messages[-1][:120] if world.messages else ""), m.class_loc(m.key(cname, "fparser.one.block_statements")))
+            world.messages[:] = []
+            continue
+        why = None
+        if left1 or left2:
+            why = "%d line(s) are left unread after the block closed" % len(left1 or left2)
+        elif len([l_ for l_ in text1.split("\n") if l_.strip()]) != len(lines):
+            why = "the regenerated program has %d lines for %d source lines (%r ...)" % (len([l_ for l_ in text1.split(chr(10)) if l_.strip()]), len(lines),
+                                                                                       [l_.strip() for l_ in text1.split("\n")][:12])
+        elif s1 != s2:
+            why = "the regenerated program nests its statements differently: %s vs %s" % (s1[:10], s2[:10])
+        elif text1 != text2:
+            why = "the regenerated program regenerates to different text"
+        r.ob(why is None, "%s: %d lines, %d statements nested to depth %d" % (lines[0], len(lines), len(s1), max(d for d, _ in s1) if s1 else 0))
+        if why:
+            r.fail("%s|block|structure" % ident, "fparser1, program starting `%s`: %s" % (lines[0], why),
+                   m.class_loc(m.key(cname, "fparser.one.block_statements")))
     return r
